@@ -5,13 +5,16 @@ from ..gen import schema_lines, NOCASE, COMMENTS, IGNORE_UNKNOWN
 from .C01 import hand_schemas
 
 THEOREMS = ["C12_skip_body", "C12_skip_value", "C12_skip_list", "C12_skip_call", "C12_skip_section", "C12_skip_titled_section",
-            "C12_clean", "C12_flag_off", "enter_skip", "skip_until", "getoptPath_quiet", "getoptPath_setLine", "depthAfter_nest"]
-PARTIAL = ("Proved: from an item boundary (state 0 of any frame, any depth) an undeclared name followed by a value, an append, a list, a call, "
-           "or a plain/titled section whose content is ANY brace-balanced token sequence (any size, any nesting: depthAfter_nest) brings the "
-           "machine back to state 0 of the same frame with the same tree, the same diagnostic and callback logs and the same number of frames "
-           "(no recursion); path resolution is silent under IGNORE_UNKNOWN; without the flag the name is rejected. Not proved: that the fields the "
-           "skipped frame differs in (pending annotation dropped, stale `opt`/`depth`/`ignore`) cannot influence the rest of the parse "
-           "(C12_insert of DESIGN.md) - that is what the implementation-side oracle checks (with vs without the inserted item).")
+            "C12_clean", "C12_flag_off", "enter_skip", "skip_until", "getoptPath_quiet", "getoptPath_setLine", "depthAfter_nest", "C12_insert", "C12_insert_value", "C12_insert_list", "C12_insert_call", "C12_insert_section", "C12_insert_titled_section", "sim_step"]
+PARTIAL = ("Proved: from an item boundary (state 0 of any frame, any depth) an undeclared name followed by a value, an append, a list, a call, or a "
+           "plain/titled section whose content is ANY brace-balanced token sequence (any size, any nesting: depthAfter_nest) brings the machine back to "
+           "state 0 of the same frame with the same tree, the same diagnostic and callback logs and the same number of frames (no recursion); path "
+           "resolution is silent under IGNORE_UNKNOWN; without the flag the name is rejected; and C12_insert: whatever token sequence follows the skipped "
+           "item - well-formed or not - is parsed to the same observable outcome as without the item: same acceptance, same values at every depth, same "
+           "callback invocations, same diagnostic classes in order (simulation Sim over all 15 states: positions, the dropped pending annotation and "
+           "the stale 'current option' local cannot reach a value). Hypotheses of the per-form corollaries: the item boundary is not right after a "
+           "deprecated option and the frame's skip locals are clear (depth 0 / no pending ignore), which the skipper itself restores on exit; that "
+           "every reachable boundary has them clear is not proved as an invariant.")
 VARIANT = "asan"
 RULE = ("accepted texts (token lists with their item boundaries at every depth) x one boundary x a generated unknown item "
         "(assignment, list, append, call, plain/titled section with recursively generated content; nesting to the tier's depth); "
